@@ -1,28 +1,54 @@
 #!/usr/bin/env python3
-"""mutant_table.py <matrix_out.json>...: markdown table of which checks raise which alarm for every seeded change"""
+"""mutant_table.py --full <matrix json>... --own <own-only json>...: markdown table of which checks raise which alarm
+for every seeded change.  `full` files hold a row over all checks (cross-property columns), `own` files the result of
+the change's own check at a later commit (they take precedence for the 'caught by its own check' column)."""
 import json, os, sys
 VERIF = os.path.dirname(os.path.dirname(os.path.abspath(__file__)))
-res = {}
-for p in sys.argv[1:]:
-    res.update(json.load(open(p)))
+full, own = {}, {}
+mode = None
+for a in sys.argv[1:]:
+    if a in ("--full", "--own"):
+        mode = a
+        continue
+    (full if mode == "--full" else own).update(json.load(open(a)))
 rows = []
-for sid in sorted(k for k in res if k != "unchanged"):
-    r = res[sid]
+nseed = nown = 0
+for sid in sorted(set(full) | set(own), key=lambda s: (s.startswith("benign"), s)):
+    if sid == "unchanged":
+        continue
+    rf, ro = full.get(sid), own.get(sid)
+    r = rf if isinstance(rf, dict) else ro
     if not isinstance(r, dict):
         continue
     meta = json.load(open(os.path.join(VERIF, "seeded", sid, "meta.json")))
     tgt = r["target"]
-    inp = sorted(p for p, v in r["checks"].items() if v[0] != 0 and v[1].startswith("input") and p != tgt[:3])
-    noi = sorted(p for p, v in r["checks"].items() if v[0] != 0 and not v[1].startswith("input") and p != tgt[:3])
-    partial = len(r["checks"]) < 10
-    own = r["checks"].get(tgt, [0, "-"])
-    ownv = "yes, with input" if own[0] and own[1].startswith("input") else ("yes, no-input" if own[0] else ("n/a" if tgt.startswith("none") else "NO"))
-    what = meta["summary"].split(". ")[0][:150].replace("|", "/")
-    rows.append("| %s | %s | %s | %s | %s | %s |" % (sid, tgt[:4], what, ownv, "(own check only)" if partial else (" ".join(inp) or "-"),
-                                                     "" if partial else (" ".join(noi) or "-")))
+    what = meta["summary"].split(". ")[0][:140].replace("|", "/").replace("\n", " ")
+    if sid.startswith("benign"):
+        src = ro if isinstance(ro, dict) and len(ro["checks"]) >= 10 else rf
+        al = sorted(p for p, v in src["checks"].items() if v[0] != 0) if isinstance(src, dict) else None
+        rows.append("| %s | – | %s | n/a | %s | |" % (sid, what, "not run over all checks" if al is None else
+                                                   ("no alarm on any of the %d checks" % len(src["checks"]) if not al else
+                                                    "alarm (`no-failing-input-found`): " + " ".join(al))))
+        continue
+    nseed += 1
+    t3 = tgt[:3]
+    o = None
+    if isinstance(ro, dict) and t3 in ro["checks"]:
+        o = ro["checks"][t3]
+    elif isinstance(rf, dict) and t3 in rf["checks"]:
+        o = rf["checks"][t3]
+    ownv = "not run" if o is None else ("yes, with input" if o[0] and o[1].startswith("input") else ("yes, no-input" if o[0] else "NO"))
+    nown += ownv == "yes, with input"
+    if isinstance(rf, dict) and len(rf["checks"]) >= 10:
+        inp = sorted(p for p, v in rf["checks"].items() if v[0] != 0 and v[1].startswith("input") and p != t3)
+        noi = sorted(p for p, v in rf["checks"].items() if v[0] != 0 and not v[1].startswith("input") and p != t3)
+        rows.append("| %s | %s | %s | %s | %s | %s |" % (sid, t3, what, ownv, " ".join(inp) or "-", " ".join(noi) or "-"))
+    else:
+        rows.append("| %s | %s | %s | %s | (own check only) | |" % (sid, t3, what, ownv))
 print("| change | target | what it does (first sentence of its meta.json) | caught by its own check | other checks with a failing input | checks with `no-failing-input-found` |")
 print("|---|---|---|---|---|---|")
 print("\n".join(rows))
-u = res.get("unchanged")
-if u and len(u):
-    print("\nUnchanged tree: " + ("no check raises an alarm." if all(v[0] == 0 for v in u.values()) else "ALARMS: %s" % u))
+print("\n%d seeded changes, %d caught by the check of their own property with a concrete failing input." % (nseed, nown))
+u = full.get("unchanged")
+if u:
+    print("Unchanged tree: " + ("no check raises an alarm." if all(v[0] == 0 for v in u.values()) else "ALARMS: %s" % u))
